@@ -295,6 +295,23 @@ func (g *Gen) evalIdent(ctx *specCtx, name string) Val {
 	if v, ok := g.pkgLevel(ctx, name); ok {
 		return v
 	}
+	// inside a helper that was carved out of the function under contract: names of the enclosing function
+	for i := len(g.outerScopes) - 1; i >= 0; i-- {
+		sc := g.outerScopes[i]
+		if as := sc.localNames[base]; len(as) >= k {
+			a := as[k-1]
+			if !sc.escaping[a] {
+				if v, ok := ctx.st.cells[a]; ok {
+					return v
+				}
+			} else if pr, ok := ctx.st.regs[a].(PtrV); ok {
+				return g.loadHeap(ctx.st, pr)
+			}
+		}
+		if v, ok := sc.paramVals[name]; ok {
+			return v
+		}
+	}
 	g.unsupported("unknown identifier " + name + " in contract")
 	return nil
 }
